@@ -229,8 +229,8 @@ func init() {
 				bound, raceBound = 3, 2
 			}
 			ps := []*harness.Phase{
-				{Name: "interleavings", Bound: bound, Gate: true, FineCrumbs: true, Rule: "6 scenarios x entry-point choices x all schedules with <=2 (thorough 3) preemptions (pool answer deviations share the bound); distinct by (scenario, schedule)", Body: func(c *explore.C) { c08Body(c, tier, false) }},
-				{Name: "interleavings-race", Bound: raceBound, Race: true, Gate: true, FineCrumbs: true, Rule: "the same scenarios with <=1 (thorough 2) preemptions in a -race build whose scheduler hand-offs create no happens-before edge; any data race aborts the worker and is pinned to the schedule", Body: func(c *explore.C) { c08Body(c, tier, true) }},
+				{Name: "interleavings", Bound: bound, Gate: true, FineCrumbs: true, Weight: 2, Rule: "6 scenarios x entry-point choices x all schedules with <=2 (thorough 3) preemptions (pool answer deviations share the bound); distinct by (scenario, schedule)", Body: func(c *explore.C) { c08Body(c, tier, false) }},
+				{Name: "interleavings-race", Bound: raceBound, Race: true, Gate: true, FineCrumbs: true, Weight: 2, Rule: "the same scenarios with <=1 (thorough 2) preemptions in a -race build whose scheduler hand-offs create no happens-before edge; any data race aborts the worker and is pinned to the schedule", Body: func(c *explore.C) { c08Body(c, tier, true) }},
 			}
 			return append(ps, e3Phases("C08")...)
 		},
